@@ -53,8 +53,11 @@ class C01Bloom(Scenario):
             chans = structs.ALL_SUBJECTS[name].channels
             return {"op": "restart", "chan": rng.choice(chans), "dir": rng.choice(seams.Scratch.DIRS),
                     "style": rng.choice(STYLES), "stale": rng.chance(1, 3)}
-        if r < 91:
+        if r < 89:
             return {"op": "chdir", "dir": rng.choice(seams.Scratch.DIRS)}
+        if r < 91:
+            # hash lists of several keys computed first, used afterwards
+            return {"op": "batch", "ks": [rng.below(cfg["universe"]) for _ in range(rng.between(2, 5))]}
         if r < 94:
             # another structure in the same process uses the same hash strategy at another depth, on the same keys
             # and on many others (strategies may keep process-global state such as caches)
@@ -183,6 +186,13 @@ class C01Bloom(Scenario):
         elif op == "chdir":
             scr.chdir(step["dir"])
             ctx.fault("cwd_change")
+        elif op == "batch":
+            h = self.hasher() if self.kind == "ExpandingBloomFilter" else sub.obj
+            lists = [h.hashes(seams.key_of(k)) for k in step["ks"]]
+            for k, hs in zip(step["ks"], lists):
+                sub.obj.add_alt(hs)
+                self.model.add(k)
+            ctx.count("batch_adds", len(lists))
         elif op == "noise":
             from probables.hashes import default_fnv_1a
 
